@@ -10,7 +10,9 @@ import (
 	"sort"
 	"sync"
 	"time"
+	"unsafe"
 
+	"github.com/relab/gorums"
 	"github.com/relab/hotstuff"
 	"github.com/relab/hotstuff/core"
 	"github.com/relab/hotstuff/core/eventloop"
@@ -231,6 +233,9 @@ type Node struct {
 	CIO       *server.ClientIO
 	Await     map[clientpb.MessageID]<-chan error // outcome channels of waiting clients
 	Outcomes  [][3]int64                          // (client, seq, 0 = success / 1 = error) in the order they were collected
+	asyncMu   sync.Mutex
+	asyncOut  [][3]int64 // outcomes of requests made through the real ExecCommand handler (SubmitReal), not yet collected
+	Submitted map[clientpb.MessageID]bool
 	LR        leaderrotation.LeaderRotation
 	Key       hotstuff.PrivateKey
 	Gate      *Gate // set when NodeOpts.Async
@@ -413,13 +418,61 @@ func (n *Node) FireTimeout() int {
 // Submit is what ClientIO.ExecCommand does for a client request: register the waiting client, add the
 // command to the cache.
 func (n *Node) Submit(cmd *clientpb.Command) {
+	if n.Submitted == nil {
+		n.Submitted = map[clientpb.MessageID]bool{}
+	}
+	n.Submitted[cmd.ID()] = true
 	n.Await[cmd.ID()] = n.CIO.VerifAwait(cmd.ID())
 	n.Cache.Add(cmd)
+}
+
+// fakeServerCtx has the layout of gorums.ServerCtx, whose constructor is unexported (a handler only calls Release on it).
+type fakeServerCtx struct {
+	context.Context
+	once *sync.Once
+	mut  *sync.Mutex
+	c    chan<- *gorums.Message
+}
+
+// SubmitReal makes the client request through the real handler ClientIO.ExecCommand (which blocks until the command
+// completes): a goroutine plays the gorums server, the outcome is picked up by CollectOutcomes when the handler returns.
+func (n *Node) SubmitReal(cmd *clientpb.Command) {
+	if n.Submitted == nil {
+		n.Submitted = map[clientpb.MessageID]bool{}
+	}
+	n.Submitted[cmd.ID()] = true
+	mut := &sync.Mutex{}
+	mut.Lock()
+	f := fakeServerCtx{Context: context.Background(), once: new(sync.Once), mut: mut, c: make(chan *gorums.Message, 4)}
+	sctx := *(*gorums.ServerCtx)(unsafe.Pointer(&f))
+	registered := make(chan struct{})
+	go func() {
+		go func() { mut.Lock(); close(registered) }() // Release() unlocks the mutex after the request is registered and queued
+		_, err := n.CIO.ExecCommand(sctx, cmd)
+		code := int64(0)
+		if err != nil {
+			code = 1
+		}
+		n.asyncMu.Lock()
+		n.asyncOut = append(n.asyncOut, [3]int64{int64(cmd.ClientID), int64(cmd.SequenceNumber), code})
+		n.asyncMu.Unlock()
+	}()
+	select {
+	case <-registered:
+	case <-time.After(2 * time.Second):
+	}
 }
 
 // CollectOutcomes drains the outcome channels (a channel may hold more than one outcome if the
 // implementation answered twice).
 func (n *Node) CollectOutcomes() {
+	for i := 0; i < 3; i++ {
+		runtime.Gosched() // let handlers that just received their outcome return
+	}
+	n.asyncMu.Lock()
+	n.Outcomes = append(n.Outcomes, n.asyncOut...)
+	n.asyncOut = nil
+	n.asyncMu.Unlock()
 	ids := make([]clientpb.MessageID, 0, len(n.Await))
 	for id := range n.Await {
 		ids = append(ids, id)
